@@ -554,19 +554,83 @@ func c10R3(c *Ctx, r *Report) {
 		}
 		// wildcard reconstruction guarded by len(labels) > s.Labels
 		nWild := 0
+		isStar := func(v ssa.Value) bool {
+			cst, ok := v.(*ssa.Const)
+			return ok && cst.Value != nil && cst.Value.ExactString() == `"*."`
+		}
+		usesStar := func(f *ssa.Function) bool {
+			found := false
+			allInstrs(f, func(in ssa.Instruction) {
+				for _, op := range in.Operands(nil) {
+					if *op != nil && isStar(*op) {
+						found = true
+					}
+				}
+			})
+			return found
+		}
+		// the reconstruction sits in rawSignatureData or in a helper it calls (whose Labels argument is s.Labels)
+		wfn := calleeWith(fn, usesStar)
+		if wfn != nil && wfn != fn {
+			labelsIn := boundTo(fn, wfn, fieldPathOf(isValue(sig), "Labels"))
+			var extras []string
+			allInstrs(wfn, func(in ssa.Instruction) {
+				blocks := []*ssa.BasicBlock{}
+				if phi, isPhi := in.(*ssa.Phi); isPhi {
+					for i, e := range phi.Edges {
+						if isStar(e) {
+							blocks = append(blocks, phi.Block().Preds[i])
+						}
+					}
+				} else {
+					for _, op := range in.Operands(nil) {
+						if *op != nil && isStar(*op) {
+							blocks = append(blocks, in.Block())
+						}
+					}
+				}
+				for _, b := range blocks {
+					nWild++
+					g := Guard{Name: "len(labels) > int(Labels)", Op: "lt", A: labelsIn, B: callsFunc("builtin.len"), Holds: true}
+					if miss := guardsMissing(wfn, b, []Guard{g}); len(miss) > 0 {
+						problems = append(problems, fmt.Sprintf("%s: wildcard owner reconstruction not guarded by %s", c.pos(in.Pos()), miss[0]))
+					}
+					extra := ""
+					for _, fc := range factsAt(wfn, b) {
+						if fc.If != nil && !matchGuard(fc, g) {
+							extra = fc.Atom.String()
+						}
+					}
+					extras = append(extras, extra)
+				}
+			})
+			// the "*." of the rebuilt owner is used where nothing but the label-count test has been passed (its use in
+			// the arm that appends the remaining labels lies behind a further test)
+			if len(extras) > 0 {
+				free := false
+				for _, e := range extras {
+					if e == "" {
+						free = true
+					}
+				}
+				if !free {
+					problems = append(problems, fmt.Sprintf("the wildcard owner is rebuilt only under an additional condition (%s): owners with more labels than RRSIG.Labels that fail it are signed/verified under their own name, so valid wildcard expansions are refused", extras[0]))
+				}
+			}
+			if nWild >= 1 {
+				nWild = 1
+			}
+		}
 		allInstrs(fn, func(in ssa.Instruction) {
 			st, ok := in.(*ssa.Store)
-			if !ok || !readsField("RR_Header", "Name")(st.Addr) {
+			if !ok || !readsField("RR_Header", "Name")(st.Addr) || (wfn != nil && wfn != fn) {
 				return
 			}
 			if _, isCall := st.Val.(*ssa.Call); isCall {
 				return
 			}
 			// a concatenation starting with "*."
-			if anyIn(sliceOf(st.Val), func(v ssa.Value) bool {
-				cst, ok := v.(*ssa.Const)
-				return ok && cst.Value != nil && cst.Value.ExactString() == `"*."`
-			}) {
+			if anyIn(sliceOf(st.Val), isStar) {
 				nWild++
 				g := Guard{Name: "len(labels) > int(s.Labels)", Op: "lt", A: fieldPathOf(isValue(sig), "Labels"), B: callsFunc("builtin.len"), Holds: true}
 				if miss := guardsMissing(fn, st.Block(), []Guard{g}); len(miss) > 0 {
